@@ -1,0 +1,33 @@
+// Package atomicfile provides a crash safe replacement for os.WriteFile.
+package atomicfile // import "gitlab.com/yawning/obfs4.git/common/atomicfile"
+
+import "os"
+
+const tmpSuffix = ".tmp"
+
+// WriteFile writes data to the named file like os.WriteFile, except that it
+// never truncates or partially overwrites an existing file.  The data is
+// written to a temporary file in the same directory, flushed, and then
+// renamed over the destination, so that a crash at any point leaves either
+// the complete old contents or the complete new contents behind.
+func WriteFile(name string, data []byte, perm os.FileMode) error {
+	tmp := name + tmpSuffix
+	f, err := os.OpenFile(tmp, os.O_WRONLY|os.O_CREATE|os.O_TRUNC, perm)
+	if err != nil {
+		return err
+	}
+	_, err = f.Write(data)
+	if err == nil {
+		err = f.Sync()
+	}
+	if closeErr := f.Close(); err == nil {
+		err = closeErr
+	}
+	if err == nil {
+		err = os.Rename(tmp, name)
+	}
+	if err != nil {
+		_ = os.Remove(tmp)
+	}
+	return err
+}
